@@ -13,6 +13,7 @@ import hashlib
 import itertools
 import json
 import os
+import random
 import shutil
 import tempfile
 from fractions import Fraction
@@ -186,7 +187,8 @@ def write_case(case):
     for i, f in enumerate(case["files"]):
         p = os.path.join(d, f"f{i}.pep.xml")
         with open(p, "w", encoding="utf-8") as fh:
-            fh.write(render_bad(f["bad"]) if "bad" in f else render_file(f))
+            fh.write(render_bad(f["bad"]) if "bad" in f else
+                     render_tree_file(f) if "tree" in f else render_file(f))
         paths.append(p)
     return paths
 
@@ -1229,7 +1231,8 @@ def tally(chk, case, tag):
 
 def eval_cases(chk, cases, tag="gen"):
     lines, at = [], []
-    for c in cases:
+    tree_at = {}
+    for k, c in enumerate(cases):
         w = wire_files(c)
         at.append(len(lines))
         lines.append(req("pepxml", c["prefix"], w))
@@ -1239,10 +1242,19 @@ def eval_cases(chk, cases, tag="gen"):
             o = c["opts"]
             lines.append(req("pepxml-opts", opt(None if o.get("default_prefix") else c["prefix"]), w,
                              list(o.get("exclude") or []), opt(None if o.get("bin") is None else Fraction(o["bin"]))))
+        for fi, f in enumerate(c["files"]):
+            if "tree" in f:
+                tree_at[(k, fi)] = len(lines)
+                lines.append(req("pepxml-tree", c["prefix"], wire_tree(f["tree"])))
     resp = common.driver_batch(lines)
     for k, c in enumerate(cases):
         nv, nc = len(chk.spec_violations), len(chk.corr_breaks)
-        if "opts" in c:
+        tree_resp = {fi: resp[i] for (kk, fi), i in tree_at.items() if kk == k}
+        if tree_resp:
+            compare_tree(chk, c, tree_resp)
+        if any("tree_error" in f for f in c["files"]):
+            compare_tree_error(chk, c)
+        elif "opts" in c:
             compare_opts(chk, c, resp[at[k]], resp[at[k] + 1], resp[at[k] + 3], tag, resp_attrs=resp[at[k] + 2])
         else:
             compare(chk, c, resp[at[k]], resp[at[k] + 1], tag, resp_attrs=resp[at[k] + 2])
@@ -1252,6 +1264,7 @@ def eval_cases(chk, cases, tag="gen"):
         chk.case(None, case_key(c) if nontrivial(c) else None, sample=sample)
         tally(chk, c, tag)
         tally2(chk, c)
+        tally3(chk, c)
         if "opts" in c:
             tally_opts(chk, c)
         if len(chk.spec_violations) > nv:
@@ -1925,6 +1938,9 @@ def deletions(case):
     def clone():
         return json.loads(json.dumps(case))
 
+    if any("tree" in f for f in case["files"]):
+        yield from tree_deletions(case)
+        return
     o = case.get("opts")
     if o is not None:
         for i in range(len(o.get("exclude") or [])):
@@ -1994,10 +2010,464 @@ def minimise(chk):
 # ----------------------------------------------------------------------------
 # entry points
 # ----------------------------------------------------------------------------
+# ----------------------------------------------------------------------------
+# third pass: element trees (see gaps/GAPS-C20.md, "Third pass").  The code reaches every level of the document
+# with Element.iter (all descendants, any depth) / iterparse (end-tag order) / Element.get (None when absent);
+# `Model/PepxmlTree.lean` models that walk.  A file of a case may carry `tree` = [tag, [[key, kind, text]*], [kid*]]
+# (kind: t text, i integer literal, q decimal literal, n score literal); it is then rendered from the tree, and
+# its `runs` are the abstraction of the tree computed HERE (a direct re-statement: `abstract_tree`), which the
+# driver op `pepxml-tree` must reproduce; everything downstream (specification, flat model, attribute columns)
+# works on that abstraction.  `tree_error` = "raises" / "unmodelled" when the walk does not yield a document.
+# ----------------------------------------------------------------------------
+def T(tag, attrs=(), kids=()):
+    return [tag, [list(a) for a in attrs], list(kids)]
+
+
+def tree_of_file(f, variant=0):
+    """the tree of an abstract document (attributes the parser does not read included)"""
+    runs = []
+    for r in f["runs"]:
+        spectra = []
+        for k, sp in enumerate(r["spectra"]):
+            results = []
+            for res in sp["results"]:
+                hits = []
+                for hi, h in enumerate(res):
+                    a = [["hit_rank", "i", str(hi + 1)], ["peptide", "t", h["pep"]], ["protein", "t", h["prot"]],
+                         ["calc_neutral_pep_mass", "q", h["calc"]]]
+                    for key, name in (("mc", "num_missed_cleavages"), ("ntt", "num_tol_term"),
+                                      ("nm", "num_matched_peptides")):
+                        if h[key] is not None:
+                            a.append([name, "i", str(h[key])])
+                    if variant % 2:
+                        a.reverse()
+                    kids = []
+                    for ch in h["children"]:
+                        if ch[0] == "m":
+                            kids.append(T("modification_info", [["modified_peptide", "t", "X"], ["mod_nterm_mass", "q", "43.0184"]],
+                                          [T("mod_aminoacid_mass", [["position", "i", str(pos)], ["mass", "t", m]])
+                                           for pos, m in ch[1]]))
+                        elif ch[0] == "s":
+                            kids.append(T("search_score", [["name", "t", ch[1]], ["value", "n", score_text(ch)]]))
+                        else:
+                            kids.append(T("alternative_protein", [["protein", "t", ch[1]], ["num_tol_term", "i", "2"]]))
+                    hits.append(T("search_hit", a, kids))
+                results.append(T("search_result", [["search_id", "i", "1"]], hits))
+            spectra.append(T("spectrum_query", [
+                ["spectrum", "t", f"s.{k}"], ["start_scan", "i", str(sp["scan"] - 1)], ["end_scan", "i", str(sp["scan"])],
+                ["precursor_neutral_mass", "q", sp["exp"]], ["assumed_charge", "i", str(sp["charge"])],
+                ["retention_time_sec", "q", sp["rt"]]], results))
+        runs.append(T("msms_run_summary", [["base_name", "t", r["base"]], ["raw_data_type", "t", "raw"],
+                                           ["raw_data", "t", r["ext"]]], spectra))
+    return T("msms_pipeline_analysis", [["summary_xml", "t", "x"]], runs)
+
+
+def render_tree(e, out, top=None):
+    attrs = "".join(f" {k}={quoteattr(v)}" for k, _, v in e[1])
+    out.append(f"<{e[0]}{top or ''}{attrs}>")
+    for kid in e[2]:
+        render_tree(kid, out)
+    out.append(f"</{e[0]}>")
+
+
+def render_tree_file(f):
+    opt_ = f.get("render", {})
+    out = ['<?xml version="1.0" encoding="UTF-8"?>']
+    render_tree(f["tree"], out, f' xmlns="{NS}"' if opt_.get("ns", True) else "")
+    if opt_.get("comments"):
+        out = [x + ("<!-- search_hit -->" if i % 7 == 3 and not x.startswith("<?") else "") for i, x in enumerate(out)]
+    return ("\n" if opt_.get("newlines", True) else "").join(out) + "\n"
+
+
+def wire_aval(kind, text):
+    if kind == "t":
+        return [Atom("t"), text]
+    if kind == "i":
+        return [Atom("i"), int(text)]
+    if kind == "q":
+        return [Atom("q"), Fraction(text)]
+    root, _, ex = text.lower().partition("e")
+    return [Atom("n"), Fraction(root), opt(int(ex) if ex else None)]
+
+
+def wire_tree(e):
+    return [e[0], [[k, wire_aval(kind, v)] for k, kind, v in e[1]], [wire_tree(x) for x in e[2]]]
+
+
+class TreeRaises(Exception):
+    pass
+
+
+class TreeUnmodelled(Exception):
+    pass
+
+
+def t_pre(e):
+    yield e
+    for kid in e[2]:
+        yield from t_pre(kid)
+
+
+def t_post(e):
+    for kid in e[2]:
+        yield from t_post(kid)
+    yield e
+
+
+def t_iter(e, *tags):
+    return [x for x in t_pre(e) if x[0] in tags]
+
+
+def t_get(e, key, kinds, missing):
+    for k, kind, v in e[1]:
+        if k == key:
+            if kind not in kinds:
+                raise TreeUnmodelled(key)
+            return v
+    if missing is None:
+        return None
+    raise missing(key)
+
+
+def abstract_tree(root):
+    """direct re-statement of what lines 170-241 / 262-307 read off an element tree -> runs of the abstract document"""
+    runs = []
+    for r in [x for x in t_post(root) if x[0] == "msms_run_summary"]:
+        base = t_get(r, "base_name", "t", TreeRaises)
+        ext = t_get(r, "raw_data", "t", TreeRaises)
+        spectra = []
+        for sq in t_iter(r, "spectrum_query"):
+            scan = int(t_get(sq, "end_scan", "i", TreeRaises))
+            charge = int(t_get(sq, "assumed_charge", "i", TreeRaises))
+            rt = t_get(sq, "retention_time_sec", "qi", TreeRaises)
+            exp = t_get(sq, "precursor_neutral_mass", "qi", TreeRaises)
+            results = []
+            for res in t_iter(sq, "search_result"):
+                hits = []
+                for sh in t_iter(res, "search_hit"):
+                    calc = t_get(sh, "calc_neutral_pep_mass", "qi", TreeRaises)
+                    pep = t_get(sh, "peptide", "t", TreeUnmodelled)
+                    prot = t_get(sh, "protein", "t", TreeRaises)
+                    o = [t_get(sh, a, "i", None) for a in ("num_missed_cleavages", "num_tol_term", "num_matched_peptides")]
+                    o = [None if x is None else int(x) for x in o]
+                    if o[2] is not None and o[2] < 0:
+                        raise TreeUnmodelled("num_matched_peptides")
+                    children = []
+                    for el in t_iter(sh, "modification_info", "search_score", "alternative_protein"):
+                        if el[0] == "modification_info":
+                            ms = []
+                            for m in t_iter(el, "mod_aminoacid_mass"):
+                                pos = int(t_get(m, "position", "i", TreeRaises))
+                                if pos < 0:
+                                    raise TreeUnmodelled("position")
+                                ms.append([pos, t_get(m, "mass", "t", TreeRaises)])
+                            children.append(["m", ms])
+                        elif el[0] == "alternative_protein":
+                            children.append(["a", t_get(el, "protein", "t", TreeRaises)])
+                        else:
+                            name = t_get(el, "name", "t", TreeUnmodelled)
+                            val = t_get(el, "value", "n", TreeUnmodelled)
+                            cut = min((val.find(ch_) for ch_ in "eE" if ch_ in val), default=-1)
+                            children.append(["s", name, val if cut < 0 else val[:cut], None if cut < 0 else val[cut:]])
+                    hits.append(dict(calc=calc, pep=pep, prot=prot, mc=o[0], ntt=o[1], nm=o[2], children=children))
+                results.append(hits)
+            spectra.append(dict(scan=scan, charge=charge, rt=rt, exp=exp, results=results))
+        runs.append(dict(base=base, ext=ext, spectra=spectra))
+    return runs
+
+
+def attach_tree(f, tree):
+    """file dict of a case for a tree: `runs` = its abstraction (or `tree_error`)"""
+    g = dict(tree=tree, render=dict(ns=f.get("render", {}).get("ns", True), newlines=f.get("render", {}).get("newlines", True),
+                                    comments=f.get("render", {}).get("comments", False)))
+    try:
+        g["runs"] = abstract_tree(tree)
+    except TreeRaises:
+        g["runs"], g["tree_error"] = [], "raises"
+    except TreeUnmodelled:
+        g["runs"], g["tree_error"] = [], "unmodelled"
+    return g
+
+
+def t_paths(e, path=()):
+    yield path, e
+    for i, kid in enumerate(e[2]):
+        yield from t_paths(kid, path + (i,))
+
+
+def t_at(root, path):
+    for i in path:
+        root = root[2][i]
+    return root
+
+
+PERTURBATIONS = ["wrap-kids", "wrap-one", "nested-children", "stray-spectrum", "stray-hit", "stray-mod",
+                 "nested-result", "nested-hit", "nested-run", "score-in-modinfo", "foreign-sibling", "drop-required",
+                 "deep-mod", "hit-in-wrapper-chain"]
+REQUIRED = {"msms_run_summary": ["base_name", "raw_data"],
+            "spectrum_query": ["end_scan", "assumed_charge", "retention_time_sec", "precursor_neutral_mass"],
+            "search_hit": ["calc_neutral_pep_mass", "protein", "peptide"],
+            "mod_aminoacid_mass": ["position", "mass"], "alternative_protein": ["protein"],
+            "search_score": ["name", "value"]}
+
+
+def perturb_tree(rng, tree, kind):
+    """one structural change of a tree (in place); returns False when the tree offers no place for it"""
+    nodes = list(t_paths(tree))
+
+    def pick(*tags):
+        c = [e for _, e in nodes if e[0] in tags]
+        return rng.choice(c) if c else None
+
+    def wrap(e, depth=1):
+        for _ in range(depth):
+            e = T(rng.choice(["wrapper", "analysis_result", "search_hit_extra", "x"]), [["name", "t", "w"], ["end_scan", "i", "1"]], [e])
+        return e
+
+    if kind == "wrap-kids":
+        e = pick("msms_pipeline_analysis", "msms_run_summary", "spectrum_query", "search_result", "search_hit", "modification_info")
+        if e is None or not e[2]:
+            return False
+        e[2] = [wrap(x, rng.choice([1, 1, 2])) for x in e[2]]
+    elif kind == "wrap-one":
+        e = pick("msms_run_summary", "spectrum_query", "search_result", "search_hit", "modification_info")
+        if e is None or not e[2]:
+            return False
+        i = rng.randrange(len(e[2]))
+        e[2][i] = wrap(e[2][i], rng.choice([1, 3]))
+    elif kind == "nested-children":
+        e = pick("search_hit")
+        if e is None:
+            return False
+        extra = [T("search_score", [["name", "t", "nested_" + rng.choice("abc")], ["value", "n", rng.choice(["0.5", "3", "1.5e-3"])]])]
+        if rng.random() < 0.5:
+            extra.append(T("alternative_protein", [["protein", "t", rng.choice(["decoy_N1", "N2 descr", "rev_N3"])]]))
+        e[2].insert(rng.randint(0, len(e[2])), T("analysis_result", [["analysis", "t", "peptideprophet"]],
+                                                 [T("peptideprophet_result", [["probability", "q", "0.9"]], extra)]))
+    elif kind == "stray-spectrum":
+        sq = pick("spectrum_query")
+        if sq is None:
+            return False
+        tree[2].insert(rng.randint(0, len(tree[2])), json.loads(json.dumps(sq)))
+    elif kind == "stray-hit":
+        sq, sh = pick("spectrum_query"), pick("search_hit")
+        if sq is None or sh is None:
+            return False
+        sq[2].insert(rng.randint(0, len(sq[2])), wrap(json.loads(json.dumps(sh)), rng.choice([0, 1])))
+    elif kind == "stray-mod":
+        sh = pick("search_hit")
+        if sh is None:
+            return False
+        sh[2].insert(rng.randint(0, len(sh[2])), T("mod_aminoacid_mass", [["position", "i", "1"], ["mass", "t", "99.9"]]))
+    elif kind == "nested-result":
+        res = pick("search_result")
+        if res is None:
+            return False
+        res[2].insert(rng.randint(0, len(res[2])), json.loads(json.dumps(res)))
+    elif kind == "nested-hit":
+        sh = pick("search_hit")
+        if sh is None:
+            return False
+        inner = json.loads(json.dumps(sh))
+        inner[2] = [x for x in inner[2] if x[0] != "modification_info"]
+        sh[2].insert(rng.randint(0, len(sh[2])), inner)
+    elif kind == "nested-run":
+        r = pick("msms_run_summary")
+        if r is None:
+            return False
+        inner = json.loads(json.dumps(r))
+        inner[1] = [["base_name", "t", "inner"], ["raw_data", "t", ".mzML"]]
+        inner[2] = inner[2][:1]
+        r[2].insert(rng.randint(0, len(r[2])), inner)
+    elif kind == "score-in-modinfo":
+        mi = pick("modification_info")
+        if mi is None:
+            return False
+        mi[2].insert(rng.randint(0, len(mi[2])), T("search_score", [["name", "t", "inmod"], ["value", "n", "2.5"]]))
+    elif kind == "foreign-sibling":
+        e = pick("msms_pipeline_analysis", "msms_run_summary", "spectrum_query", "search_result", "search_hit")
+        e[2].insert(rng.randint(0, len(e[2])), T(rng.choice(["search_summary", "parameter", "search_hits", "xsearch_hit"]),
+                                                 [["base_name", "t", "zzz"], ["protein", "t", "decoy_zzz"], ["value", "t", "1"]],
+                                                 [T("parameter", [["name", "t", "p"], ["value", "t", "1"]])]))
+    elif kind == "drop-required":
+        e = pick(*REQUIRED)
+        if e is None:
+            return False
+        key = rng.choice(REQUIRED[e[0]])
+        e[1] = [a for a in e[1] if a[0] != key]
+    elif kind == "deep-mod":
+        mi = pick("modification_info")
+        if mi is None or not mi[2]:
+            return False
+        mi[2] = [wrap(x, 2) for x in mi[2]]
+    elif kind == "hit-in-wrapper-chain":
+        res = pick("search_result")
+        if res is None or not res[2]:
+            return False
+        res[2] = [wrap(T("group", [], res[2]), 2)]
+    else:
+        raise AssertionError(kind)
+    return True
+
+
+def gen_tree_case(rng, size=3, kinds=None):
+    case = gen_case(rng, size)
+    case["files"] = [f for f in case["files"] if "bad" not in f][:2] or [gen_file(rng, case["prefix"], size)]
+    applied = []
+    files = []
+    for f in case["files"]:
+        tree = tree_of_file(f, rng.randint(0, 1))
+        for _ in range(rng.choice([0, 1, 1, 2, 3])):
+            kind = rng.choice(kinds or PERTURBATIONS)
+            if kind == "drop-required" and rng.random() < 0.6:
+                continue
+            if perturb_tree(rng, tree, kind):
+                applied.append(kind)
+        g = attach_tree(f, tree)
+        g["render"]["comments"] = rng.random() < 0.2
+        files.append(g)
+    case["files"] = files
+    case["tree_kinds"] = applied
+    return case
+
+
+def tree_edge_cases():
+    rng = random.Random(20)
+    base = dict(runs=[dict(base="r", ext=".mzML", spectra=[dict(scan=5, charge=2, rt="1.5", exp="800.5", results=[[
+        simple_hit(children=[["m", [[2, "15.99"], [5, "0.98"]]], ["a", "decoy_A desc"], ["s", "xcorr", "2.5", None],
+                             ["s", "expect", "1.5", "e-05"]], mc=1, ntt=2, nm=37),
+        simple_hit(pep="ACDK", prot="decoy_B", children=[["a", "decoy_C"], ["s", "xcorr", "0.5", None]])], []])])])
+    cases = []
+    for kind in PERTURBATIONS:
+        for rep in range(3):
+            tree = tree_of_file(base, rep)
+            if perturb_tree(rng, tree, kind):
+                cases.append(dict(prefix="decoy_", files=[attach_tree(base, tree)], as_list=True, tree_kinds=[kind]))
+    # every required attribute of every level absent once
+    for tag, keys in REQUIRED.items():
+        for key in keys:
+            tree = tree_of_file(base)
+            e = next(x for x in t_pre(tree) if x[0] == tag)
+            e[1] = [a for a in e[1] if a[0] != key]
+            cases.append(dict(prefix="decoy_", files=[attach_tree(base, tree)], as_list=True, tree_kinds=["drop:" + key]))
+    # the unperturbed tree, and two files (a tree and a flat rendering)
+    cases.append(dict(prefix="decoy_", files=[attach_tree(base, tree_of_file(base))], as_list=False, tree_kinds=[]))
+    cases.append(dict(prefix="decoy_", files=[attach_tree(base, tree_of_file(base)), GOOD_DOC], as_list=True, tree_kinds=[]))
+    return cases
+
+
+def _norm_wire(x):
+    if isinstance(x, list):
+        return [_norm_wire(y) for y in x]
+    return x[:-2] if x.endswith("/1") else x
+
+
+def compare_tree(chk, case, tree_resp):
+    """the driver's tree walk (`runsOfTree`, `treeRows`, `treeHitCount`) against the re-statement `abstract_tree`"""
+    for fi, line in tree_resp.items():
+        f = case["files"][fi]
+        got = common.dec(line)
+        if not isinstance(got, list) or len(got) != 3:
+            raise RuntimeError(f"driver answered {line[:200]} for a tree")
+        doc, nrows, count = got
+        want_doc = f.get("tree_error") or _norm_wire(common.dec(common.enc(wire_file(dict(runs=f["runs"])))))
+        nh = sum(1 for _ in iter_hits(f))
+        ok = _norm_wire(doc) == want_doc
+        if ok and "tree_error" not in f:
+            ok = nrows == [str(nh)] and count == str(nh)
+        if not ok:
+            chk.corr_break("pepxml-tree", dict(case=case, file=fi, model=line[:600], expected=str(want_doc)[:600],
+                                               hits=nh))
+
+
+def compare_tree_error(chk, case):
+    """a tree from which no document can be read: the code must raise where an attribute it cannot do without is absent"""
+    kinds = [f["tree_error"] for f in case["files"] if "tree_error" in f]
+    impl = run_impl(case)
+    if "raises" in kinds and kinds[0] == "raises" and len(case["files"]) == 1:
+        if impl[0] in ("exception:TypeError", "exception:AttributeError"):
+            chk.reject("tree:missing-required-attribute:" + impl[0])
+        else:
+            chk.corr_break("pepxml-tree", dict(case=case, impl=list(impl)[:2], model="raises"))
+    else:
+        chk.reject("tree:unmodelled:" + impl[0])
+
+
+def tree_deletions(case):
+    """delete one element of one tree (re-abstracting), or one whole file"""
+    for fi, f in enumerate(case["files"]):
+        if len(case["files"]) > 1:
+            c = json.loads(json.dumps(case)); del c["files"][fi]; yield c
+        if "tree" not in f:
+            continue
+        for path, _ in t_paths(f["tree"]):
+            if not path:
+                continue
+            c = json.loads(json.dumps(case))
+            t = c["files"][fi]["tree"]
+            del t_at(t, path[:-1])[2][path[-1]]
+            c["files"][fi] = attach_tree(f, t)
+            if "tree_error" not in c["files"][fi]:
+                yield c
+
+
+def tally3(chk, case):
+    for f in case["files"]:
+        for h_ in iter_hits(f):
+            if h_["prot"][:1] == " " or any(c[0] == "a" and c[1][:1] in (" ", "") for c in h_["children"]):
+                chk.count("empty-accession", True)
+    nsets = {tuple(sorted({c[1] for h_ in iter_hits(f) for c in h_["children"] if c[0] == "s"}))
+             for f in case["files"] if "bad" not in f}
+    if len(case["files"]) > 1:
+        chk.count("files-score-sets", "same" if len(nsets) <= 1 else "different")
+    if "tree_kinds" not in case:
+        return
+    for kd in case["tree_kinds"] or ["none"]:
+        chk.count("tree-perturbation", kd)
+    errs = [f.get("tree_error", "document") for f in case["files"] if "tree" in f]
+    for e in errs:
+        chk.count("tree-outcome", e)
+    depth = max((len(p) for f in case["files"] if "tree" in f for p, _ in t_paths(f["tree"])), default=0)
+    chk.count("tree-depth", depth)
+
+
+def mixed_files_cases():
+    """sixth-wave seeded change (inner join of the per-file frames): several files with DIFFERENT score sets and
+    optional attributes, and a Percolator file next to an ordinary one, in both orders"""
+    h = simple_hit
+
+    def doc(name, hits):
+        return dict(runs=[dict(base=name, ext=".mzML", spectra=[
+            dict(scan=3 + i, charge=2 + i % 2, rt="10.5", exp="700.5", results=[[x]]) for i, x in enumerate(hits)])],
+            render=dict(ns=True))
+
+    a = doc("a", [h(children=[["s", "hyperscore", "21.5", None], ["s", "nextscore", "11", None], ["s", "expect", "0.5", None]],
+                    mc=1, ntt=2),
+                  h(prot="decoy_T2", children=[["s", "hyperscore", "8", None], ["s", "expect", "2", None]], mc=0, ntt=1)])
+    b = doc("b", [h(children=[["s", "xcorr", "2.25", None], ["s", "deltacn", "0.5", None], ["s", "expect", "0.25", None]], nm=12)])
+    c = doc("c", [h(children=[])])
+    perc = doc("p", [h(children=[["s", "xcorr", "2.25", None], ["s", "Percolator PEP", "0.01", None],
+                                 ["s", "Percolator q-Value", "0.01", None], ["s", "Percolator SVMScore", "1.5", None]])])
+    cases = []
+    for files in ([a, b], [b, a], [a, b, c], [c, a], [a, c, b], [a, a, b], [b, c]):
+        cases.append(dict(prefix="decoy_", files=clone(list(files)), as_list=True))
+    for files in ([a, perc], [perc, a], [a, perc, b], [perc, perc], [c, perc], [perc, c], [b, a, perc]):
+        cases.append(dict(prefix="decoy_", files=clone(list(files)), as_list=True, as_tuple=len(files) == 3))
+    # side observation of the sixth wave: a protein attribute that begins with a blank gives the empty accession
+    # (`split(" ")[0]`), which carries no non-empty prefix — model and code agree, the histogram counts it
+    blank = doc("k", [h(prot="decoy_P", children=[["a", " decoy_Q"], ["s", "xcorr", "1.5", None]]),
+                      h(prot=" decoy_R", children=[["a", "decoy_S"], ["s", "xcorr", "2.5", None]]),
+                      h(prot="decoy_P", children=[["a", " "], ["a", ""], ["s", "xcorr", "3.5", None]])])
+    for pfx in ("decoy_", "", "d"):
+        cases.append(dict(prefix=pfx, files=clone([blank]), as_list=True))
+    return cases
+
+
+
 def search(chk):
     rng = chk.rng
-    cases = [gen_opts_case(rng, 5) if i % 4 == 0 else gen_case2(rng, 5) if i % 4 == 2 else gen_case(rng, 6)
-             for i in range(1500)]
+    cases = [gen_opts_case(rng, 5) if i % 4 == 0 else gen_case2(rng, 5) if i % 4 == 2 else
+             gen_tree_case(rng, 4) if i % 8 == 3 else gen_case(rng, 6) for i in range(1500)]
     for i in range(0, len(cases), 200):
         eval_cases(chk, cases[i:i + 200], tag="search")
         if chk.spec_violations:
@@ -2031,6 +2501,13 @@ def main(chk, args):
         cases2 = [gen_case2(rng, 3 if (i % 10 or chk.tier == "quick") else 8) for i in range(m2)]
         for i in range(0, len(cases2), 200):
             eval_cases(chk, cases2[i:i + 200], tag="gen-2")
+        # third pass: element trees and mixed files (generated last: the streams above are unchanged)
+        eval_cases(chk, mixed_files_cases(), tag="edge-3")
+        eval_cases(chk, tree_edge_cases(), tag="edge-tree")
+        m3 = 130 if chk.tier == "quick" else 3000
+        cases3 = [gen_tree_case(rng, 3 if (i % 10 or chk.tier == "quick") else 6) for i in range(m3)]
+        for i in range(0, len(cases3), 200):
+            eval_cases(chk, cases3[i:i + 200], tag="gen-tree")
         exhaustive(chk, chk.tier == "thorough")
         minimise(chk)
     finally:
